@@ -115,9 +115,12 @@ def export_scripts(cfgname, num, depth, seed, out_path, fam):
             if body in seen:
                 continue
             seen.add(body)
-            steps = [{"a": "reset", "run": n, "fam": fam, "R": c["R"], "M": 30 if c["Msz"] else None, "disc": "wake"}]
+            raw = json.loads(body)
+            seik = next((x["sei"] for x in raw if x["a"] == "resume"), "never")
+            sei = {"zero": 0, "finite": 100, "never": 4294967295}[seik]
+            steps = [{"a": "reset", "run": n, "fam": fam, "R": c["R"], "M": 30 if c["Msz"] else None, "disc": "wake", "sei_connect": sei}]
             last_ctx = False
-            for st in json.loads(body):
+            for st in raw:
                 if st["a"] == "call":
                     steps.append({"a": "call", "op": st["op"], "h": 0, "spec": _spec_of(st["op"], st["k"])})
                     last_ctx = False
@@ -125,6 +128,11 @@ def export_scripts(cfgname, num, depth, seed, out_path, fam):
                     if not last_ctx:
                         steps.append(st)
                     last_ctx = True
+                elif st["a"] == "resume":
+                    # the connection was lost (run() has returned): record the disconnection and connect again
+                    steps.append({"a": "markdisc", "secs": 150 if st["age"] == "after" else 0})
+                    steps.append({"a": "reconnect", "R": c["R"], "M": 30 if c["Msz"] else None, "sei_connect": sei, "fam": fam, "run": n})
+                    last_ctx = False
                 elif st["a"] == "drop" and st["t"] == "h":
                     steps.append({"a": "drop", "t": "h", "k": 0})
                     last_ctx = False
